@@ -15,6 +15,8 @@ package socket
 
 import (
 	"hash/crc32"
+	"io"
+	"io/ioutil"
 	"net"
 	"time"
 
@@ -75,3 +77,21 @@ func nextTempDelay(err error, onError func(net.Conn, error), tempDelay time.Dura
 	}
 	return 0
 }
+
+// readBody reads a body of the length its frame header announces. The announcement sizes
+// the buffer only up to a mebibyte: a dozen bytes of header must not cost two gibibytes
+// before a single byte of body has arrived; beyond that the buffer grows with the bytes.
+func readBody(r io.Reader, length int) ([]byte, error) {
+	const prealloc = 1 << 20
+	if length <= prealloc {
+		body := make([]byte, length)
+		_, err := io.ReadAtLeast(r, body, length)
+		return body, err
+	}
+	body, err := ioutil.ReadAll(io.LimitReader(r, int64(length)))
+	if err == nil && len(body) < length {
+		err = io.ErrUnexpectedEOF
+	}
+	return body, err
+}
+
